@@ -41,6 +41,18 @@ def k_self(ctx, seqs, k):
         fn = getattr(pyrepseq, name)
         out = ctx.call(fn, list(seqs), max_edits=k)
         S.expect_triplets(ctx, out, expected, name, "self")
+    variant = (len(seqs) + k) % 4
+    if variant == 0:        # the same call with max_edits given positionally
+        out = ctx.call(pyrepseq.nearest_neighbor, list(seqs), k)
+        S.expect_triplets(ctx, out, expected, "nearest_neighbor", "self-positional")
+        ctx.count("positional_calls")
+    elif variant == 1:
+        out = ctx.call(pyrepseq.symdel, list(seqs), k, None, 1, None, float("inf"), "triplets", None, False)
+        S.expect_triplets(ctx, out, expected, "symdel", "self-positional")
+        ctx.count("positional_calls")
+    elif variant == 2 and len(seqs) <= 200:
+        out = ctx.call(pyrepseq.symdel, list(seqs), max_edits=k, progress=False, n_cpu=1, max_returns=None)
+        S.expect_triplets(ctx, out, expected, "symdel", "self-explicit-defaults")
 
 
 KINDS = {"self": k_self}
